@@ -195,6 +195,13 @@ func runC04(t *testing.T, c FaultCase) (*h.Violation, h.Info) {
 				return
 			}
 			results[i].v = judge(f, o, path, create, op, preBytes, preR, postR, preRetry.M.Render(false), postRetry.M.Render(false))
+			if results[i].v == nil {
+				// also when a step fails, the way out is never to write the live file in place
+				if v := monitorInPlace(windowOpen(o.Main), path); v != nil {
+					v.Detail = fmt.Sprintf("with %s: %s", f, v.Detail)
+					results[i].v = v
+				}
+			}
 		}()
 	}
 	wg.Wait()
@@ -409,7 +416,7 @@ func genFaultCase(rt *rapid.T) FaultCase {
 
 var c04 = &h.Campaign[FaultCase]{
 	Prop: "C04", Sub: "faults",
-	Rule: "rapid draws (pre-state history, kind of mutating call incl. database creation); for each, a child process performs the call under strace: a dry run yields the exact file-system syscalls of the save window, then the COMPLETE plan is executed, one child per fault: every errno of a per-syscall list injected at every window position, SIGKILL before every position and after the last, and real short writes (RLIMIT_FSIZE at 0/1/half/len-1 bytes) alone and followed by SIGKILL; kill => the file opens and holds the complete pre- or post-state; error => result, served state, a following call and the file agree with all-or-nothing - for every other fault the following call is the IDENTICAL call repeated at once, which must succeed and be on disk at that moment; the un-faulted trace is monitored for temp-file-in-same-dir with O_EXCL, fsync before rename, no in-place write; non-trivial = a case in which faults really fired inside the window (checked in strace's log); the evidence also counts distinct fired (op kind, syscall, position, fault type) tuples",
+	Rule: "rapid draws (pre-state history, kind of mutating call incl. database creation); for each, a child process performs the call under strace: a dry run yields the exact file-system syscalls of the save window, then the COMPLETE plan is executed, one child per fault: every errno of a per-syscall list injected at every window position, SIGKILL before every position and after the last, and real short writes (RLIMIT_FSIZE at 0/1/half/len-1 bytes) alone and followed by SIGKILL; kill => the file opens and holds the complete pre- or post-state; error => result, served state, a following call and the file agree with all-or-nothing - for every other fault the following call is the IDENTICAL call repeated at once, which must succeed and be on disk at that moment; the un-faulted trace is monitored for: payload written to a file other than the live one, that file fsynced before it is renamed over the live file; every trace, faulted or not, for: the live file never opened for writing or truncated; non-trivial = a case in which faults really fired inside the window (checked in strace's log); the evidence also counts distinct fired (op kind, syscall, position, fault type) tuples",
 	Quick: 24, Thorough: 2000,
 	Gen:   genFaultCase,
 	Run:   runC04,
